@@ -21,6 +21,7 @@ import (
 	"github.com/robustirc/robustirc/internal/outputstream"
 	"github.com/robustirc/robustirc/internal/raftstore"
 	"github.com/robustirc/robustirc/internal/robust"
+	"github.com/robustirc/robustirc/internal/verifhook"
 	"github.com/stapelberg/glog"
 	"github.com/syndtr/goleveldb/leveldb"
 	"google.golang.org/protobuf/types/known/timestamppb"
@@ -164,6 +165,7 @@ func (fsm *FSM) applyProto(l *pb.RaftLog, msg *robust.Message) interface{} {
 				glog.Fatalf("Could not store log while marking message as message of death: %v", err)
 			}
 			log.Printf("Marked %+v as message of death\n", l)
+			verifhook.At("fsm.death", "index", l.Index, "session", msg.Session.Id, "cmid", msg.ClientMessageId)
 			glog.Fatalf("%v", r)
 		}
 	}()
@@ -202,6 +204,7 @@ func (fsm *FSM) Apply(l *raft.Log) interface{} {
 
 	msg := robust.NewMessageFromBytes(l.Data, robust.IdFromRaftIndex(l.Index))
 	glog.Infof("Apply(msg.Type=%s)\n", msg.Type)
+	defer func() { verifhook.At("fsm.apply", "index", l.Index, "type", int64(msg.Type), "session", msg.Session.Id, "cmid", msg.ClientMessageId) }()
 	return fsm.applyProto(&p, &msg)
 }
 
@@ -337,6 +340,7 @@ func (fsm *FSM) Snapshot() (raft.FSMSnapshot, error) {
 	}
 
 	fsm.lastSnapshotState[first-1] = state
+	verifhook.At("fsm.snapshot", "first", first, "last", last)
 
 	return &robustSnapshot{
 		firstIndex:    first,
@@ -356,6 +360,7 @@ func (fsm *FSM) Restore(snap io.ReadCloser) error {
 	fsm.restoreMu.Lock()
 	defer fsm.restoreMu.Unlock()
 	log.Printf("Obtained restore lock")
+	defer func() { verifhook.At("fsm.restored", "fsm", fsm) }()
 	defer snap.Close()
 
 	if err := fsm.ircstore.Close(); err != nil {
